@@ -74,9 +74,14 @@ type vtimer struct {
 var S *Sched
 
 var resets []func()
+var execSeq int64
 
-// OnReset registers a function run at the start of every execution (pools are emptied there).
+// OnReset registers a function that is run once, at the start of the NEXT execution (pools used during an
+// execution register themselves and are emptied before the following one; see ExecSeq).
 func OnReset(f func()) { resets = append(resets, f) }
+
+// ExecSeq numbers executions; an object that must be reset between executions re-registers when it changes.
+func ExecSeq() int64 { return execSeq }
 
 // On reports whether a controlled execution is active on the calling goroutine's behalf.
 func On() bool { return S != nil && S.cur != nil }
@@ -96,9 +101,12 @@ func Run(cfg Config, body func()) *Sched { return RunWith(cfg, body, nil) }
 
 // RunWith is Run with a hook called once when the execution ends, before the remaining threads are unwound.
 func RunWith(cfg Config, body func(), onFinish func()) *Sched {
-	for _, f := range resets {
+	rs := resets
+	resets = nil
+	for _, f := range rs {
 		f()
 	}
+	execSeq++
 	s := &Sched{ctl: make(chan struct{}), choose: cfg.Choose, MaxSteps: cfg.MaxSteps, tracing: cfg.Trace, Fine: cfg.Fine, OnFinish: onFinish}
 	if s.MaxSteps == 0 {
 		s.MaxSteps = 20000
